@@ -483,6 +483,8 @@ void XSerializeEngine::read(XMLByte* const toRead
         memcpy(tempRead, fBufCur, fBufSize);
         tempRead   += fBufSize;
         readRemain -= fBufSize;
+        // this block has been consumed entirely
+        fBufCur    += fBufSize;
     }
 
     // read the remaining if any
